@@ -59,13 +59,17 @@ SX_COLS = ["x", "y", "z", "score", "phi", "theta", "psi"]
 ANGLE_TOL = 1e-9        # degrees: pandas' CSV float parser is not correctly rounded (1 ulp off on 17-digit decimals)
 
 
+# one worker thread per shard: the shards are the parallelism (BLAS/OpenMP pools of 16 threads per shard only fight)
+ENV = {"OMP_NUM_THREADS": "1", "OPENBLAS_NUM_THREADS": "1", "MKL_NUM_THREADS": "1", "NUMEXPR_NUM_THREADS": "1"}
+
+
 def plan(tier):
     if tier == "quick":
-        return dict(n_cases=400, shards=2, classes=CLASSES, timeout_s=600,
+        return dict(n_cases=400, shards=2, classes=CLASSES, timeout_s=600, env=ENV,
                     min_evals={"cbd_rows": 800, "cbd_separated": 800, "cbd_dominated": 800, "cbd_isolation": 800,
                                "cbd_metamorphic": 300, "sx_threshold": 500, "sx_score": 500, "sx_angles": 500,
                                "sx_separated": 500, "sx_dominated": 500, "sx_relational": 250})
-    return dict(n_cases=6400, shards=16, classes=CLASSES, timeout_s=3000,
+    return dict(n_cases=6400, shards=16, classes=CLASSES, timeout_s=3000, env=ENV,
                 min_evals={"cbd_rows": 12000, "cbd_separated": 12000, "cbd_dominated": 12000, "cbd_isolation": 12000,
                            "cbd_metamorphic": 5000, "sx_threshold": 8000, "sx_score": 8000, "sx_angles": 8000,
                            "sx_separated": 8000, "sx_dominated": 8000, "sx_relational": 4000})
@@ -577,6 +581,40 @@ def _generic_diameter(rng, lo, hi):
     return 2.5
 
 
+def _plant_sigma_boundary(rng, S, sg, dia):
+    """Boundary values of the sigma threshold: move one isolated voxel to just below and one to just above
+    mean + sigma*std(ddof=1) (20..40 accumulation bands away, i.e. ~1e-11 relative), re-solving the threshold after each
+    move.  'Isolated' = farther than the diameter from every supra-threshold voxel, so that the voxel's fate is visible.
+    -> (map, threshold, n_supra) or None"""
+    S = S.copy()
+    thr, band = O.threshold_of(S, None, sg)
+    sup = np.argwhere(S > thr)
+    sub = np.argwhere(S <= thr)
+    if len(sup) < 1 or len(sub) < 2 or len(sup) > 1500:
+        return None
+    cand = sub[rng.permutation(len(sub))[:600]]
+    far = cand[(O.sq_lattice_dist(cand, sup) > dia * dia).all(axis=1)]
+    if len(far) < 2:
+        return None
+    lo = far[0]
+    rest = far[1:][O.sq_lattice_dist(far[1:], lo[None])[:, 0] > dia * dia]
+    if len(rest) < 1:
+        return None
+    hi = rest[0]
+    f_lo, f_hi = 20 * (1 + rng.random()), 20 * (1 + rng.random())
+    for _ in range(8):
+        thr, band = O.threshold_of(S, None, sg)
+        S[tuple(lo)] = thr - f_lo * band
+        S[tuple(hi)] = thr + f_hi * band
+    thr, band = O.threshold_of(S, None, sg)
+    off = np.abs(S - thr)
+    ok = (off > 3 * band).all() and S[tuple(lo)] < thr - 10 * band and S[tuple(hi)] > thr + 10 * band \
+        and S[tuple(lo)] > thr - 80 * band and S[tuple(hi)] < thr + 80 * band and len(np.unique(S)) == S.size
+    if not ok:
+        return None
+    return S, thr, int((S > thr).sum())
+
+
 def _gen_sx(ctx, rng, cls, big):
     shape = _dims(rng, cls, big)
     nvox = int(np.prod(shape))
@@ -623,15 +661,24 @@ def _gen_sx(ctx, rng, cls, big):
     if as_files:
         io = {"scores": str(rng.choice(["em", "mrc"])), "angles": str(rng.choice(["em", "mrc", "array"])),
               "list": str(rng.choice(["csv", "csv", "array"]))}
-    use64 = bool(rng.random() < 0.35) and io["scores"] == "array"
+    use64 = bool(rng.random() < (0.7 if cls == "sx_sigma" else 0.35)) and io["scores"] == "array"
     S = S32.astype(np.float64) if use64 else S32
     if cls == "sx_sigma" or (cls in ("sx_blobs", "sx_noncubic", "sx_faces") and rng.random() < 0.25):
+        plant = cls == "sx_sigma" and S.dtype == np.float64 and rng.random() < 0.85
+        if plant:
+            dia = _generic_diameter(rng, 1.1, 3.6)
         for _ in range(40):
-            sg = float(np.round(rng.uniform(-0.5, 3.5), 2))
+            sg = float(np.round(rng.uniform(1.3, 3.5) if plant else rng.uniform(-0.5, 3.5), 2))
             t, band = O.threshold_of(S, None, sg)
             nsup = int((srt > t).sum())
             if 1 <= nsup <= cap and not np.any(np.abs(srt - t) <= 3 * band):
                 thr_kind, sigma, thr, k = "sigma", sg, t, nsup
+                if plant:
+                    planted = _plant_sigma_boundary(rng, S, sg, dia)
+                    if planted is not None:
+                        S, thr, k = planted
+                        srt = np.sort(S.ravel())
+                        thr_kind = "sigma_boundary"
                 break
     # angle list / angle map
     numbering = int(rng.integers(0, 2))
@@ -827,7 +874,7 @@ def _run_sx(ctx, c):
     rng = ctx.rng(c["i"], 1)
     S, A, L = c["S"], c["A"], c["L"]
     kw = dict(object_id=c["object_id"], angles_order=c["order"], angles_numbering=c["numbering"])
-    if c["thr_kind"] == "sigma":
+    if c["thr_kind"].startswith("sigma"):
         kw["sigma_threshold"] = c["sigma"]
     else:
         kw["scores_threshold"] = c["thr"]
@@ -850,7 +897,7 @@ def _run_sx(ctx, c):
         if name == "arrays_instead_of_files":
             a2 = [S, A, np.array(L)]                 # S is float32 whenever the scores came from a file
         elif name == "files_instead_of_arrays":
-            if S.dtype != np.float32 and c["thr_kind"] == "sigma":
+            if S.dtype != np.float32 and c["thr_kind"].startswith("sigma"):
                 ctx.ood("sx_relational")          # sigma threshold of the float32 file may differ in the last bits
                 continue
             io2 = {"scores": str(rng.choice(["em", "mrc"])), "angles": str(rng.choice(["em", "mrc"])), "list": "csv"}
